@@ -13,3 +13,4 @@ def run(rep: Report, repo: Repo, tier: str) -> None:
     fsrules.rule_pruning_in_place(rep, repo, "C15-R2")
     fsrules.rule_match_sites(rep, repo, "C15-R3")
     fsrules.rule_early_return_dominates(rep, repo, "C15-R4")
+    fsrules.rule_walk_root_absolute(rep, repo, "C15-R5")
